@@ -157,3 +157,39 @@ Proof.
   destruct (copy_f _ _ _ _) as [kids n']. destruct (register_all _ _ _). cbn [snd]. unfold get_tree. cbn [trees].
   now apply nth_error_app1.
 Qed.
+
+(* ---- copies between trees: the source tree (any tree but the target) keeps its state ---- *)
+Lemma add_node_other w ti p sti src e k b deep tj : tj <> ti ->
+  get_tree (snd (op_add_node w ti p sti src e k b deep)) tj = get_tree w tj.
+Proof.
+  intros Hj. unfold op_add_node. brk; cbn [snd]; try reflexivity; (rewrite get_put_other by congruence); reflexivity.
+Qed.
+
+Lemma add_nodes_other srcs : forall w ti p sti b deep acc tj, tj <> ti ->
+  get_tree (snd (add_nodes w ti p sti srcs b deep acc)) tj = get_tree w tj.
+Proof.
+  induction srcs as [|s rest IH]; intros w ti p sti b deep acc tj Hj; cbn [add_nodes]; [reflexivity|].
+  assert (X := add_node_other w ti p sti s None None b deep tj Hj).
+  destruct (op_add_node w ti p sti s None None b deep) as [[r|e] w']; cbn [snd] in *; [|exact X].
+  rewrite IH by assumption. exact X.
+Qed.
+
+Theorem add_tree_source_pure w ti p sti b deep tj : tj <> ti ->
+  get_tree (snd (op_add_tree w ti p sti b deep)) tj = get_tree w tj.
+Proof.
+  intros Hj. unfold op_add_tree. destruct (get_tree w ti) as [t|]; [|reflexivity]. destruct (get_tree w sti) as [st|]; [|reflexivity].
+  repeat match goal with |- context [if ?c then (Err _, w) else _] => destruct c; [reflexivity|] end.
+  match goal with |- context [add_nodes w ti p sti ?o b ?d []] => assert (X := add_nodes_other o w ti p sti b d [] tj Hj);
+    destruct (add_nodes w ti p sti o b d []) as [[r|e] w'] end; exact X.
+Qed.
+
+Theorem copy_to_source_pure w sti src ti target add_self b deep tj : tj <> ti ->
+  get_tree (snd (op_copy_to w sti src ti target add_self b deep)) tj = get_tree w tj.
+Proof.
+  intros Hj. unfold op_copy_to. destruct add_self; [now apply add_node_other|].
+  destruct (get_tree w ti) as [t|]; [|reflexivity]. destruct (get_tree w sti) as [st|]; [|reflexivity].
+  destruct (children_of src (forest_of st)) as [[|c ch]|]; [reflexivity| |reflexivity].
+  repeat match goal with |- context [if ?c then (Err _, w) else _] => destruct c; [reflexivity|] end.
+  match goal with |- context [add_nodes w ti target sti ?o BNone ?d []] => assert (X := add_nodes_other o w ti target sti BNone d [] tj Hj);
+    destruct (add_nodes w ti target sti o BNone d []) as [[r|e] w'] end; exact X.
+Qed.
